@@ -251,8 +251,7 @@ def part_mixed_user(_):
                ['type', 'UB', 'ub0', None],
                ['dtype', 'PPM', [['Money', 1], ['Mass', -1]], None, None],
                ['unit', 'PPM', 'EUR/kg', ['derive', ['EUR', 'kg']]]):
-        r = w.apply(ev)
-        assert r[0] == 'ok', (ev, r)
+        w.must(ev)
     from quantity.money import Money, MoneyConverter
     conv = MoneyConverter(w.units['EUR'], lambda: date(2020, 1, 1))
     conv.update(None, [(w.units['USD'], O.dec('D:1.25'), 1)])
